@@ -259,3 +259,218 @@ Proof.
       cbn [is_end can_end is_pull andb orb]. intros _. reflexivity.
   - destruct r; intros H; rewrite (IH H); apply orb_true_r.
 Qed.
+
+(** [has_more] never answers [Yes(0)] in the model *)
+Lemma yes_zero_nolen r : len_answer r = None -> yes_zero r = false.
+Proof. destruct r as [| | | |o|h| | |]; try reflexivity; destruct h; discriminate. Qed.
+
+Lemma yes_zero_len_res hm o : yes_zero (len_res hm o) = false.
+Proof. destruct hm; [|reflexivity]. destruct o as [[|p]|]; reflexivity. Qed.
+
+(** a loop returns with the panic of its closure only when the closure was told to panic *)
+Lemma loop_panic_user l crash done rs cnt inv used acc :
+  loop_invoke l crash done rs cnt = (inv, Some used) -> loop_panic_ok crash (RPanic PkUser acc) = true.
+Proof. unfold loop_invoke. destruct crash as [k|]; [intros _; reflexivity|intros H; discriminate H]. Qed.
+
+(** ** a call returns with the panic of the wrapped iterator only when there is a wrapped iterator and it
+       was told to panic: on every run of the model, whatever the environment, the programs, the schedule *)
+
+Lemma all_rets_mono (P Q : tid -> res -> list drops -> list event -> bool) tr :
+  (forall t r d tl, P t r d tl = true -> Q t r d tl = true) -> all_rets P tr = true -> all_rets Q tr = true.
+Proof.
+  intros HPQ. induction tr as [|ev tr IH]; [reflexivity|].
+  destruct ev as [u o|u r d|f r d]; cbn [all_rets]; try exact IH.
+  intros H. apply andb_true_iff in H. destruct H as [H1 H2]. rewrite (HPQ _ _ _ _ H1), (IH H2). reflexivity.
+Qed.
+
+Lemma add_u_panic m a b k : add_u m a b = Panic k -> k = PkOverflow.
+Proof. unfold add_u. destruct (a + b <? W); [discriminate|]. destruct m; [|discriminate]. intros H. injection H as <-. reflexivity. Qed.
+
+Lemma sub_u_panic m a b k : sub_u m a b = Panic k -> k = PkOverflow.
+Proof. unfold sub_u. destruct (b <=? a); [discriminate|]. destruct m; [|discriminate]. intros H. injection H as <-. reflexivity. Qed.
+
+Ltac panic_cases :=
+  repeat match goal with
+  | |- context [add_u ?m ?a ?b] =>
+      let E := fresh "E" in destruct (add_u m a b) eqn:E; [|apply add_u_panic in E]; cbn [bind]
+  | |- context [sub_u ?m ?a ?b] =>
+      let E := fresh "E" in destruct (sub_u m a b) eqn:E; [|apply sub_u_panic in E]; cbn [bind]
+  | |- context [if ?c then _ else _] => destruct c
+  end;
+  let H := fresh "H" in intros H; try discriminate H; injection H as <-; assumption.
+
+Lemma k_get_panic e b k : k_get e b = Panic k -> k = PkOverflow.
+Proof. unfold k_get. destruct (e_kind e); panic_cases. Qed.
+
+Lemma k_fetch_n_panic e n b k : k_fetch_n e n b = Panic k -> k = PkOverflow.
+Proof. unfold k_fetch_n. destruct (e_kind e); panic_cases. Qed.
+
+Lemma k_buf_pull_panic e c b k : k_buf_pull e c b = Panic k -> k = PkOverflow.
+Proof. unfold k_buf_pull. destruct (e_kind e); panic_cases. Qed.
+
+Lemma k_pull_panic e q b k : k_pull e q b = Panic k -> k = PkOverflow.
+Proof.
+  unfold k_pull. destruct (q_mode q); [apply k_get_panic|apply k_fetch_n_panic|apply k_buf_pull_panic].
+Qed.
+
+Section SrcPanic.
+
+Variable e : env.
+
+Definition res_src_ok (r : res) : bool :=
+  match r with RPanic PkSource _ => src_may_panic e | _ => true end.
+
+(** the program counters of the wrapper over an iterator are reached for that kind only, the unwinding one
+    only when the wrapped iterator was told to panic *)
+Definition pc_src_ok (p : pc) : Prop :=
+  match p with
+  | PUnw _ _ _ => src_may_panic e = true
+  | PChkF _ _ | PLdY _ _ | PChkT _ _ | PSrc _ _ _ | PSetF _ _ _ | PPub _ _ _ => e_kind e = KIter
+  | _ => True
+  end.
+
+Definition SInv (c : cfg) : Prop :=
+  (forall t, pc_src_ok (t_pc (c_pool c t))) /\ all_rets (fun _ r _ _ => res_src_ok r) (c_trace c) = true.
+
+Lemma res_src_ok_other k rs : k <> PkSource -> res_src_ok (RPanic k rs) = true.
+Proof. intros H. destruct k; try reflexivity. contradiction H; reflexivity. Qed.
+
+Lemma sinv_commit c t sh ts l evs :
+  SInv c -> pc_src_ok (t_pc ts) ->
+  (forall u r d, In (ERet u r d) evs -> res_src_ok r = true) ->
+  SInv (commit c t sh ts l evs).
+Proof.
+  intros [Hpcs Hevs] Hts Hnew. split.
+  - intros u. cbn [commit c_pool]. unfold upd. destruct (Nat.eqb u t); [exact Hts|apply Hpcs].
+  - cbn [commit c_trace]. induction evs as [|ev evs IH]; [exact Hevs|].
+    cbn [app]. destruct ev as [u o|u r d|f r d]; cbn [all_rets].
+    + apply IH. intros u' r d Hin. apply (Hnew u' r d). right. exact Hin.
+    + rewrite (Hnew u r d (or_introl eq_refl)). cbn [andb]. apply IH. intros u' r' d' Hin. apply (Hnew u' r' d'). right. exact Hin.
+    + apply IH. intros u' r' d' Hin. apply (Hnew u' r' d'). right. exact Hin.
+Qed.
+
+Lemma sinv_silent c t sh p l :
+  SInv c -> pc_src_ok p -> SInv (commit c t sh (set_pc (c_pool c t) p) l []).
+Proof. intros I Hp. apply sinv_commit; [exact I|exact Hp|intros u r d []]. Qed.
+
+Lemma sinv_ret c t sh ts l r d :
+  SInv c -> pc_src_ok (t_pc ts) -> res_src_ok r = true -> SInv (commit c t sh ts l [ERet t r d]).
+Proof.
+  intros I Hp Hr. apply sinv_commit; [exact I|exact Hp|].
+  intros u r' d' [H|[]]. injection H as _ <- _. exact Hr.
+Qed.
+
+Lemma deliver_src ts q pr ts' o :
+  deliver e ts q pr = (ts', o) -> (forall k, pr = Panic k -> k <> PkSource) ->
+  pc_src_ok (t_pc ts') /\ match o with Some (r, _) => res_src_ok r = true | None => True end.
+Proof.
+  intros E Hk. unfold deliver in E. destruct (q_ctx q) as [|lk cr].
+  - destruct pr as [[|b rs cnt]|k].
+    + injection E as <- <-. split; [exact I|reflexivity].
+    + destruct (deliver_top e ts q b rs cnt) as [ts2 [r d]] eqn:Et. injection E as <- <-.
+      unfold deliver_top in Et. destruct (q_mode q) as [v|k0|k0].
+      * injection Et as <- <- _. split; [exact I|]. unfold one_res. destruct (if reports_idx v then rs else map strip_idx rs); reflexivity.
+      * injection Et as <- <- _. split; [exact I|reflexivity].
+      * destruct (e_kind e), (t_buf ts) as [bf|]; try (injection Et as <- <- _; split; [exact I|reflexivity]).
+        destruct (write_slots (bf_slots bf) (runs_vals rs)) as [sl stale]. injection Et as <- <- _. split; [exact I|reflexivity].
+    + injection E as <- <-. split; [exact I|]. apply res_src_ok_other. apply Hk. reflexivity.
+  - destruct pr as [[|b rs cnt]|k].
+    + injection E as <- <-. split; [exact I|reflexivity].
+    + unfold deliver_loop in E. destruct (loop_invoke lk cr (total_cnt (t_acc ts)) rs cnt) as [inv [used|]];
+        injection E as <- <-; (split; [exact I|reflexivity]).
+    + injection E as <- <-. split; [exact I|]. apply res_src_ok_other. apply Hk. reflexivity.
+Qed.
+
+Lemma sinv_finish c t sh l q pr :
+  SInv c -> (forall k, pr = Panic k -> k <> PkSource) -> SInv (finish e c t sh (c_pool c t) l q pr).
+Proof.
+  intros I Hk. unfold finish. destruct (deliver e (c_pool c t) q pr) as [ts' o] eqn:E.
+  destruct (deliver_src _ _ _ _ _ E Hk) as [Hp Ho].
+  apply sinv_commit; [exact I|exact Hp|].
+  intros u r d Hin. destruct o as [[r0 d0]|]; cbn [ret_ev] in Hin; [|destruct Hin].
+  destruct Hin as [H|[]]. injection H as _ <- _. exact Ho.
+Qed.
+
+Lemma ok_not_panic {A} (a : A) : forall k, Ok a = Panic k -> k <> PkSource.
+Proof. intros k H. discriminate H. Qed.
+
+Lemma overflow_not_source : PkOverflow <> PkSource. Proof. discriminate. Qed.
+
+Lemma len_res_src_ok hm o : res_src_ok (len_res hm o) = true.
+Proof. destruct hm; reflexivity. Qed.
+
+Lemma sinv_step c t : SInv c -> SInv (step e c t).
+Proof.
+  intros Hs. pose proof (proj1 Hs t) as Hpc. unfold step.
+  destruct (t_pc (c_pool c t)) as [|q|q b|q b|q b|q b got|q b got|q b got|q b got| |hm|hm] eqn:Epc; cbn [pc_src_ok] in Hpc.
+  - (* call point *)
+    destruct (t_todo (c_pool c t)) as [|o rest]; [exact Hs|].
+    unfold call. destruct (call_res e (c_pool c t) o) as [p|bf r d] eqn:Ec.
+    + apply sinv_commit; [exact Hs| |].
+      * cbn [t_pc]. unfold call_res in Ec.
+        destruct o as [v|n k|n|k| |lk n cr| | |]; try discriminate Ec; try (injection Ec as <-; exact I).
+        -- destruct (e_kind e); [| | | |destruct (n =? 0); [discriminate Ec|]]; injection Ec as <-; exact I.
+        -- destruct (n =? 0); discriminate Ec.
+        -- destruct (t_buf (c_pool c t)); [|discriminate Ec]. injection Ec as <-. exact I.
+        -- destruct (n =? 0); [discriminate Ec|]. destruct (n =? 1); injection Ec as <-; exact I.
+      * intros u r d [H|[]]. discriminate H.
+    + apply sinv_commit; [exact Hs|exact I|].
+      intros u r' d' [H|[H|[]]]; [|discriminate H]. injection H as _ <- _.
+      unfold call_res in Ec.
+      destruct o as [v|n k|n|k| |lk n cr| | |]; try discriminate Ec.
+      * destruct (e_kind e); try discriminate Ec. destruct (n =? 0); [|discriminate Ec]. injection Ec as _ <- _. reflexivity.
+      * destruct (n =? 0); injection Ec as _ <- _; reflexivity.
+      * destruct (t_buf (c_pool c t)); [discriminate Ec|]. injection Ec as _ <- _. reflexivity.
+      * injection Ec as _ <- _. reflexivity.
+      * destruct (n =? 0); [|destruct (n =? 1); discriminate Ec]. injection Ec as _ <- _. reflexivity.
+  - (* the reservation *)
+    destruct (e_kind e) eqn:Ek; try (apply sinv_finish; [exact Hs|]; intros pk Hpk; rewrite (k_pull_panic _ _ _ _ Hpk); discriminate).
+    apply sinv_silent; [exact Hs|exact Ek].
+  - destruct (s_f (c_sh c)); [apply sinv_finish; [exact Hs|apply ok_not_panic]|apply sinv_silent; [exact Hs|exact Hpc]].
+  - destruct (b =? s_y (c_sh c)); [apply sinv_silent; [exact Hs|exact Hpc]|].
+    destruct (b <? s_y (c_sh c)); [apply sinv_finish; [exact Hs|apply ok_not_panic]|apply sinv_silent; [exact Hs|exact Hpc]].
+  - destruct (s_f (c_sh c)); [apply sinv_finish; [exact Hs|apply ok_not_panic]|apply sinv_silent; [exact Hs|exact Hpc]].
+  - (* a call of the wrapped iterator *)
+    destruct (crashes_now e (c_sh c)) eqn:Ecr.
+    + apply sinv_silent; [exact Hs|]. cbn [pc_src_ok]. unfold src_may_panic. rewrite Hpc.
+      unfold crashes_now in Ecr. destruct (e_crash e); [reflexivity|discriminate Ecr].
+    + destruct (q_mode q); destruct (src_next e (c_sh c)) as [xv|];
+        try (apply sinv_silent; [exact Hs|exact Hpc]);
+        (destruct (N.of_nat (length (xv :: got)) =? q_n q); apply sinv_silent; [exact Hs|exact Hpc|exact Hs|exact Hpc]).
+  - destruct (q_mode q); [apply sinv_finish; [exact Hs|apply ok_not_panic]|apply sinv_silent; [exact Hs|exact Hpc]..].
+  - destruct (q_mode q); [apply sinv_finish; [exact Hs|apply ok_not_panic]| |];
+      (destruct (s_y (c_sh c) =? b);
+       [destruct (rev got); apply sinv_finish; try exact Hs; apply ok_not_panic
+       |apply sinv_finish; [exact Hs|]; intros pk Hpk; injection Hpk as <-; discriminate]).
+  - (* unwinding *)
+    destruct (q_ctx q), (q_mode q), (e_kind e), (t_buf (c_pool c t)) as [bf|];
+      try (apply sinv_ret; [exact Hs|exact I|exact Hpc]).
+    destruct (write_slots (bf_slots bf) (rev got)) as [sl stale]. apply sinv_ret; [exact Hs|exact I|exact Hpc].
+  - (* skip_to_end *)
+    destruct (e_kind e); try (apply sinv_ret; [exact Hs|exact I|reflexivity]);
+      (destruct (k_fetch_n e (e_len e) (s_c (c_sh c))) as [[|b0 rs cnt]|k] eqn:Ef;
+       [apply sinv_ret; [exact Hs|exact I|reflexivity]..|]);
+      (apply sinv_ret; [exact Hs|exact I|]; rewrite (k_fetch_n_panic _ _ _ _ Ef); reflexivity).
+  - destruct (e_kind e); try (apply sinv_ret; [exact Hs|exact I|apply len_res_src_ok]).
+    destruct (s_f (c_sh c)); [apply sinv_ret; [exact Hs|exact I|apply len_res_src_ok]|].
+    destruct (e_hint e); [apply sinv_silent; [exact Hs|exact I]|apply sinv_ret; [exact Hs|exact I|apply len_res_src_ok]..].
+  - apply sinv_ret; [exact Hs|exact I|apply len_res_src_ok].
+Qed.
+
+Lemma sinv_exec sched : forall c, SInv c -> SInv (exec e c sched).
+Proof.
+  unfold exec. induction sched as [|t sched IH]; intros c I; [exact I|].
+  cbn [fold_left]. apply IH. apply sinv_step. exact I.
+Qed.
+
+Theorem src_panic_ok progs sched : chk_C12_src e (c_trace (exec e (init progs) sched)) = true.
+Proof.
+  assert (I0 : SInv (init progs)) by (split; [intros t; exact I|reflexivity]).
+  destruct (sinv_exec sched _ I0) as [_ H]. unfold chk_C12_src.
+  revert H. apply all_rets_mono. intros t r d tl H. unfold ev_C12_src.
+  destruct (split_call t tl) as [[o older]|]; [|reflexivity].
+  destruct o; try reflexivity. destruct r as [| | | | | | | |k rs]; try reflexivity.
+  destruct k; try reflexivity. exact H.
+Qed.
+
+End SrcPanic.
